@@ -10,8 +10,8 @@ for ID in "$@"; do
   demo=$(ls $S/demo/*.rs | head -1); name=$(basename $demo .rs)
   # crate-level demo?
   pkg=""; dest=tests
-  if grep -qi "crates/" $S/demo/README.md 2>/dev/null && grep -o "crates/[a-z-]*" $S/demo/README.md | head -1 | grep -q crates; then
-     c=$(grep -o "crates/[a-z-]*" $S/demo/README.md | head -1); dest=$c/tests; pkg="-p $(basename $c)"; mkdir -p $dest
+  if grep -o "crates/[a-z][a-z-]*" $S/demo/README.md 2>/dev/null | head -1 | grep -q "crates/[a-z]"; then
+     c=$(grep -o "crates/[a-z][a-z-]*" $S/demo/README.md | head -1); dest=$c/tests; pkg="-p $(basename $c)"; mkdir -p $dest
   fi
   cp $S/demo/*.rs $dest/
   git apply $S/patch.diff || { echo "$ID: APPLY FAILED" > $S/confirm.txt; continue; }
